@@ -56,6 +56,8 @@ class LeaveOneOutPseudoLikelihood(ExactMarginalLogLikelihood):
         """
         output = self.likelihood(function_dist, *params)
         m, L = output.mean, output.lazy_covariance_matrix.cholesky(upper=False)
+        # the parameters' batch shape may exceed the batch shape of the data
+        target = target.expand(*output.batch_shape, *target.shape[target.dim() - len(output.event_shape) :])
         m = m.reshape(*target.shape)
         identity = torch.eye(*L.shape[-2:], dtype=m.dtype, device=m.device)
         sigma2 = 1.0 / L._cholesky_solve(identity, upper=False).diagonal(dim1=-1, dim2=-2)  # 1 / diag(inv(K))
